@@ -299,6 +299,34 @@ func genBundle(r *R, opts FlatOpts, plus bool, thorough bool, force map[string]b
 		if g.r.P(50) {
 			g.addRootOp("/punct", obj{"$ref": mkRef("", "definitions", "{}")})
 		}
+		if len(g.docs) > 1 && g.r.P(60) {
+			// two $ref-free definitions of an auxiliary document whose names hold no letter or digit either, reached through
+			// a recursive definition of that document (so that Expand imports them too) or directly from the root
+			ad := g.docs[1]
+			fresh := true
+			for _, n := range []string{"?", "[]", "punctNode"} {
+				if _, exists := ad.defs[n]; exists {
+					fresh = false
+				}
+			}
+			if fresh {
+				ad.defNames = append(ad.defNames, "?", "[]", "punctNode")
+				ad.defs["?"] = obj{"type": "string", "maxLength": 7}
+				ad.defs["[]"] = obj{"type": "boolean"}
+				ad.refFree["?"], ad.refFree["[]"] = true, true
+				ad.defs["punctNode"] = obj{"type": "object", "properties": obj{
+					"q":    obj{"$ref": mkRef("", "definitions", "?")},
+					"b":    obj{"$ref": mkRef("", "definitions", "[]")},
+					"next": obj{"$ref": mkRef("", "definitions", "punctNode")}}}
+				if g.r.P(60) {
+					g.addRootOp("/punctnode", obj{"$ref": refTo(g.docs[0], ad, "definitions", "punctNode")})
+				} else {
+					g.addRootOp("/punctleaves", obj{"type": "object", "properties": obj{
+						"q": obj{"$ref": refTo(g.docs[0], ad, "definitions", "?")},
+						"b": obj{"$ref": refTo(g.docs[0], ad, "definitions", "[]")}}})
+				}
+			}
+		}
 	}
 	if g.on("anonPtr") && !opts.Expand {
 		g.plantAnonPointers()
@@ -691,7 +719,25 @@ func (g *bundleGen) schemaTyped(d *gDoc, depth int, noRef bool, owner string) ob
 			for i := 0; i < n; i++ {
 				all = append(all, g.schema(d, depth-1, noRef, owner))
 			}
-			return obj{"allOf": all}
+			s := obj{"allOf": all}
+			// a composition seldom comes bare: it may carry a type, properties of its own, additionalProperties, a description
+			if r.P(30) {
+				s["type"] = "object"
+			}
+			if g.on("maps") && r.P(25) {
+				if r.P(50) {
+					s["additionalProperties"] = g.schema(d, depth-1, noRef, owner)
+				} else {
+					s["additionalProperties"] = true
+				}
+			}
+			if r.P(20) {
+				s["properties"] = obj{g.propName(map[string]bool{}): g.schema(d, depth-1, noRef, owner)}
+			}
+			if r.P(15) {
+				s["description"] = "composed"
+			}
+			return s
 		}
 	}
 }
@@ -1271,6 +1317,28 @@ func (g *bundleGen) plantCaseSiblings() {
 		}
 		if g.r.P(40) {
 			g.addRootOp("/case"+base, obj{"$ref": mkRef("", "definitions", base)})
+		}
+	}
+	if g.r.P(50) {
+		// two paths that differ only by letter case inside a word, same method, no operationId, each with an inline
+		// complex schema: the names generated for them differ only by case
+		rd := g.docs[0]
+		m := methods[g.r.Intn(len(methods))]
+		pair := [][2]string{{"/userProfile", "/userprofile"}, {"/taskList", "/tasklist"}, {"/v1/itemSet", "/v1/itemset"}}[g.r.Intn(3)]
+		for i, pth := range pair {
+			if _, exists := rd.paths[pth]; exists {
+				continue
+			}
+			body := obj{"type": "object", "properties": obj{fmt.Sprintf("f%d", i): g.primitive(), "nested": obj{"type": "object", "properties": obj{fmt.Sprintf("g%d", i): g.primitive()}}}}
+			op := obj{"responses": obj{"200": obj{"description": "ok", "schema": body}}}
+			if g.r.P(40) {
+				op["parameters"] = []any{obj{"name": "body", "in": "body", "schema": deepCopy(body)}}
+			}
+			if !g.on("noOpIDs") && g.r.P(50) {
+				op["operationId"] = fmt.Sprintf("caseTwin%d", i)
+				g.opIDs[fmt.Sprintf("caseTwin%d", i)] = true
+			}
+			rd.paths[pth] = obj{m: op}
 		}
 	}
 	if g.r.P(50) {
